@@ -7,15 +7,17 @@
 (*                                                                         *)
 (*  Manager.runCycleInternal   CycleStart -> RecoverKeep/RecoverDrop for   *)
 (*                             every manifest (RecoverOrphanedManifests)   *)
-(*                             -> FindCandidates (HourlyTier listing: ALL  *)
-(*                             directory entries, ShouldCompactByFileSuffix*)
+(*                             -> FindCandidates (HourlyTier listing: only *)
+(*                             .parquet entries, ShouldCompactByFileSuffix *)
 (*                             , filterCandidateFiles, SplitCandidateInto- *)
 (*                             Batches) -> jobs -> CycleEnd                *)
 (*  Manager.compactFilesAdaptively  JobStart / JobReject (batch < 2),      *)
 (*                             on a killed subprocess ("signal: killed" is *)
 (*                             classified recoverable) KillSplit: the two  *)
-(*                             halves are compacted IMMEDIATELY, manifests *)
-(*                             are not consulted; KillFail at <= 2 files   *)
+(*                             halves are compacted IMMEDIATELY; before    *)
+(*                             that CompactPartition recovers the crashed  *)
+(*                             job's own manifest (RecoverOnCrash);        *)
+(*                             KillFail at <= 2 files                      *)
 (*                             (the error aborts the rest of that batch)   *)
 (*  Job.Run (subprocess)       Download (missing inputs are skipped)       *)
 (*                             -> Compact (dedup iff some input carries    *)
@@ -33,8 +35,8 @@
 (* File i (1..NFiles) is a raw file holding row i; rows r, r' with         *)
 (* KeyOf(r) = KeyOf(r') have identical tags+time (only when Dedup).        *)
 (* A "<out>.part" left by a kill between copy and rename is a directory    *)
-(* entry: queries (glob of .parquet) do not see it, the hourly tier's      *)
-(* listing does (deviation modelled as it is).                             *)
+(* entry: queries (glob of .parquet) do not see it; the hourly tier's      *)
+(* listing saw it before db8e9fa (ListAllEntries = TRUE).                  *)
 (***************************************************************************)
 EXTENDS Naturals, Sequences, FiniteSets, TLC, Json
 
@@ -44,6 +46,10 @@ CONSTANTS NFiles,     \* raw files in the partition
           MaxKills,   \* kills over the whole behaviour
           MaxCycles,  \* compaction cycles
           DedupModes, \* subset of BOOLEAN: does the partition carry dedup metadata (chosen in Init)
+          RecoverOnCrash, \* TRUE (code since e2ad6be): CompactPartition resolves the crashed job's own manifest
+                          \* before compactFilesAdaptively retries; FALSE = as written before (negative control)
+          ListAllEntries, \* FALSE (code since db8e9fa): tiers list only *.parquet files; TRUE = every directory
+                          \* entry incl. a leftover "<out>.parquet.part" (negative control)
           Emit        \* print one TRACE line per terminal state
 
 VARIABLE dedup  \* raw files carry arc:tags / arc:dedup_time (fixed in Init)
@@ -153,10 +159,11 @@ RecoverDrop ==
 \* HourlyTier.FindCandidates + filterCandidateFiles + SplitCandidateIntoBatches
 FindCandidates ==
     /\ mgr = "recover" /\ manifests = {}
-    /\ LET raws   == {f \in store : f.kind = "raw"}
-           should == Cardinality(store) >= MinFiles /\ Cardinality(raws) >= MinFiles
+    /\ LET listed == IF ListAllEntries THEN store ELSE {f \in store : f.kind # "part"}
+           raws   == {f \in listed : f.kind = "raw"}
+           should == Cardinality(listed) >= MinFiles /\ Cardinality(raws) >= MinFiles
            tracked == UNION {m.inputs \cup {m.out} : m \in manifests}     \* empty here: recovery always completes on a local backend
-           files  == AscSeq({f.id : f \in store} \ tracked)
+           files  == AscSeq({f.id : f \in listed} \ tracked)
            bs     == SplitBatches(files)
        IN queue' = IF should /\ Len(files) > 0 THEN [i \in DOMAIN bs |-> [files |-> bs[i], depth |-> 0]] ELSE <<>>
     /\ mgr' = "run"
@@ -237,11 +244,21 @@ GateOf(j) == CASE j.pc = "manifest"     -> 1
                [] j.pc = "delManifest"  -> 4 + Len(j.valid)
 KillPcs == {"manifest", "uploadCopy", "uploadRename", "del", "delManifest"}
 
+\* CompactPartition after a dead subprocess (e2ad6be): recoverManifest on the job's own manifest, if it wrote one
+OwnManifest == {m \in manifests : job.out # 0 /\ m.out = job.out}
+StoreAfterCrash ==
+    IF RecoverOnCrash /\ OwnManifest # {} /\ OutputExists(CHOOSE m \in OwnManifest : TRUE)
+      THEN {f \in store : f.id \notin (CHOOSE m \in OwnManifest : TRUE).inputs}
+      ELSE store
+
 Killed == /\ job.pc \in KillPcs /\ kills < MaxKills
           /\ kills' = kills + 1 /\ cycKills' = cycKills + 1
           /\ job' = Idle
+          /\ store' = StoreAfterCrash
+          /\ unsafeDel' = (unsafeDel \/ LosesKey(store, StoreAfterCrash))
+          /\ manifests' = IF RecoverOnCrash THEN manifests \ OwnManifest ELSE manifests
           /\ hist' = [hist EXCEPT ![Len(hist)].gate = GateOf(job)]
-          /\ UNCHANGED <<dedup, store, manifests, mgr, cyc, nextId, lastClean, unsafeDel>>
+          /\ UNCHANGED <<dedup, mgr, cyc, nextId, lastClean>>
 
 \* ClassifySubprocessError("signal: killed") = recoverable; split in half, retry both now
 KillSplit ==
